@@ -449,6 +449,14 @@ func AccessPath(v ssa.Value) (string, bool) {
 		if x.Op != token.MUL {
 			return "", false
 		}
+		// a parameter spilled to a local because a closure captures it: one store, of the parameter
+		if root := localRoot(x.X); root != nil {
+			if vals, ok := localStores(root); ok && len(vals) == 1 {
+				if prm, isP := vals[0].(*ssa.Parameter); isP {
+					return prm.Name(), true
+				}
+			}
+		}
 		p, ok := AccessPath(x.X)
 		if !ok {
 			return "", false
@@ -584,4 +592,32 @@ func reachableAvoiding(from, to *ssa.BasicBlock, avoid map[*ssa.BasicBlock]bool)
 		}
 	}
 	return false
+}
+
+// RetVal resolves result #i of a return to the value that is actually returned: when the
+// function has defers, go/ssa spills results to a local (`*r = X; rundefers; t = *r; return t`);
+// the store in the same block is looked up. Falls back to the operand itself.
+func RetVal(ret *ssa.Return, i int) ssa.Value {
+	v := ret.Results[i]
+	u, ok := v.(*ssa.UnOp)
+	if !ok || u.Op != token.MUL {
+		return v
+	}
+	a, ok := u.X.(*ssa.Alloc)
+	if !ok {
+		return v
+	}
+	var last ssa.Value
+	for _, in := range ret.Block().Instrs {
+		if in == ssa.Instruction(u) {
+			break
+		}
+		if st, ok := in.(*ssa.Store); ok && st.Addr == ssa.Value(a) {
+			last = st.Val
+		}
+	}
+	if last != nil {
+		return last
+	}
+	return v
 }
